@@ -5018,18 +5018,31 @@ func (formalArgs createArgsMapped) exec(vm *vm) {
 type createArgsUnmapped uint32
 
 func (formalArgs createArgsUnmapped) exec(vm *vm) {
-	args := vm.r.newBaseObject(vm.r.global.ObjectPrototype, "Arguments")
-	i := 0
 	c := int(formalArgs)
 	if vm.args < c {
 		c = vm.args
 	}
-	for _, v := range vm.stash.values[:c] {
+	vm.createArgsUnmapped(vm.stash.values[:c], vm.stash.extraArgs)
+}
+
+// Used after enterFunc1: the arguments are still on the stack and only some of them have been copied to the stash.
+type _createArgsUnmappedStack struct{}
+
+var createArgsUnmappedStack _createArgsUnmappedStack
+
+func (_createArgsUnmappedStack) exec(vm *vm) {
+	vm.createArgsUnmapped(vm.stack[vm.sb+1:vm.sb+1+vm.args], nil)
+}
+
+func (vm *vm) createArgsUnmapped(values, extraArgs []Value) {
+	args := vm.r.newBaseObject(vm.r.global.ObjectPrototype, "Arguments")
+	i := 0
+	for _, v := range values {
 		args._put(unistring.String(strconv.Itoa(i)), v)
 		i++
 	}
 
-	for _, v := range vm.stash.extraArgs {
+	for _, v := range extraArgs {
 		args._put(unistring.String(strconv.Itoa(i)), v)
 		i++
 	}
